@@ -61,6 +61,8 @@ SNIPPETS = [
     ("exec", "f = [lambda: 0, lambda: 0]; g = lambda: (lambda: (1)); h = lambda a: (lambda: (\n 1))\n"),
     ("exec", "def f(a, *args, key=None, **kw):\n    return a, args, key, kw\n"),
     ("exec", "x = '\\udc80'; y = '\\ud800\\udc00'; z = '\\ud800\\U0001fad0'\ndef f():\n    '\\udc80 doc'\n"),
+    # dead lines after the final return (<=3.9: an _additional_line with additional offsets)
+    ("exec", "def f():\n    return 1\n    x = 2\n    y = 3\n"),
     # co_consts holds two equal tuples on <=3.9 (folded defaults) and both are referenced, one of them again later
     ("exec", "x = (1, 2)\ndef f(a=1, b=2):\n    return a + b\ny = (1, 2)\nz = (1, 2)\n"),
     # one name that is a cell AND a free variable of the same code object (the class body of A)
